@@ -28,6 +28,7 @@ type SpecEnv struct {
 	frame      *Frame
 	override   map[ssa.Value]SV
 	prove      bool // clause is being proved (witness hints of exists are used), not assumed
+	freshBase  string // watermark that fresh() is relative to (call-time watermark at a call site); "" = function entry
 }
 
 // SVal is the value of a spec expression.
@@ -848,7 +849,11 @@ func (e *SpecEnv) call(x *Expr) SVal {
 					ref = "(i.ref " + a.T + ")"
 				}
 			}
-			return goVal("(>= "+ref+" "+e.x.rootW0+")", tBool)
+			base := e.x.rootW0
+			if e.freshBase != "" {
+				base = e.freshBase
+			}
+			return goVal("(>= "+ref+" "+base+")", tBool)
 		case "ite":
 			cnd := e.evalBool(args[0])
 			a, b := e.eval(args[1]), e.eval(args[2])
@@ -982,7 +987,7 @@ func (e *SpecEnv) call(x *Expr) SVal {
 			if len(args) != len(d.Params) {
 				e.fail("%s expects %d arguments", d.Name, len(d.Params))
 			}
-			ne := &SpecEnv{x: e.x, c: e.c, st: e.st, old: e.old, vars: map[string]specVar{}, pkg: e.pkg, guard: e.guard}
+			ne := &SpecEnv{x: e.x, c: e.c, st: e.st, old: e.old, vars: map[string]specVar{}, pkg: e.pkg, guard: e.guard, freshBase: e.freshBase}
 			for i, a := range args {
 				v := e.eval(a)
 				var want string
@@ -1026,6 +1031,7 @@ func (e *SpecEnv) call(x *Expr) SVal {
 				got := e.sortOfVal(v)
 				if v.IsNil {
 					got = want
+					v.T = nilOfSort(want)
 				}
 				if got != want {
 					e.fail("ghost %s argument %d has sort %s, want %s", g.Name, i, got, want)
@@ -1296,4 +1302,14 @@ func (e *SpecEnv) ghostSets(ct *Contract, st *State, guard string) {
 		h := e.c.ghostVar(name, srt)
 		st.heap[h] = ite(guard, v.T, st.get(h))
 	}
+}
+
+func nilOfSort(s string) string {
+	switch s {
+	case "Slice":
+		return "(mk-slice 0 0 0 0)"
+	case "Iface":
+		return "(mk-iface 0 0)"
+	}
+	return "0"
 }
